@@ -163,6 +163,14 @@ End Plan.
 
 (* ------------------------------------------------------------------------------------------ *)
 (* 4. the dialect-level merge of the fetched rows                                               *)
+(* if imv.num_sentinel_columns and not imv_batch.is_downgraded *)
+Definition merge_guard (num_sentinel_columns : Z) (is_downgraded : bool) : bool :=
+  truthy num_sentinel_columns && negb is_downgraded.
+(* composite_sentinel = imv.num_sentinel_columns > 1 *)
+Definition composite_sentinel (num_sentinel_columns : Z) : bool := num_sentinel_columns >? 1.
+(* len(rows_by_sentinel) != len(imv_batch.batch) *)
+Definition rowcount_differs (dict_len batch_len : nat) : bool := negb (Nat.eqb dict_len batch_len).
+
 Section Merge.
 Context {P K R : Type}.
 Variable key_eqb : K -> K -> bool.
@@ -205,11 +213,11 @@ Fixpoint lookup_all (keys : list K) (rows : list R) : option (list R) :=
   end.
 
 Definition merge_rows (c : config) (b : batch P) (rows : list R) : result (list R) :=
-  if truthy (c_num_sentinel c) && negb (b_downgraded b) then
+  if merge_guard (c_num_sentinel c) (b_downgraded b) then
     if c_implicit c then
-      if 1 <? c_num_sentinel c then Raise AssertionError else Ok (sort_rows rows)
+      if composite_sentinel (c_num_sentinel c) then Raise AssertionError else Ok (sort_rows rows)
     else if negb (c_has_keys c) then Raise AssertionError
-    else if negb (Nat.eqb (dict_len rows) (length (b_items b))) then Raise RowCountMismatch
+    else if rowcount_differs (dict_len rows) (length (b_items b)) then Raise RowCountMismatch
     else match lookup_all (map sent_of_param (b_items b)) rows with
          | Some ordered => Ok ordered
          | None => Raise SentinelKeyError
@@ -282,6 +290,8 @@ Fixpoint zrange (start : Z) (n : nat) : list Z :=
 (* range(start, end) *)
 Definition py_range (start stop : Z) : list Z := zrange start (Z.to_nat (stop - start)).
 
+(* if self._numeric_binds and num_ins_params > 0 *)
+Definition numeric_guard (numeric_binds : bool) (num_ins_params : Z) : bool := numeric_binds && (num_ins_params >? 0).
 Definition numeric_start (lower : Z) : Z := lower + 1.
 Definition numeric_end (num_ins_params cbs start : Z) : Z := num_ins_params * cbs + start.
 
@@ -312,7 +322,7 @@ Definition expand_positional (ly : layout) (items : list ptuple) (cbs : Z) : res
     Ok (mkExpanded
           (xl ++ concat it ++ xr)
           (if l_embed ly then Z.of_nat (length items) else cbs)
-          (if l_numeric ly && (0 <? l_num_ins ly)
+          (if numeric_guard (l_numeric ly) (l_num_ins ly)
            then py_range start (numeric_end (l_num_ins ly) cbs start) else [])
           (if l_embed ly then zrange 0 (length items) else []))
   end.
@@ -336,3 +346,8 @@ Fixpoint named_updates (mask : list bool) (i : nat) (items : list ptuple) : list
 Definition expand_named (mask : list bool) (first : ptuple) (items : list ptuple)
   : list (nat * option nat * Z) :=
   map (fun jv => (fst jv, None, snd jv)) (select_mask false mask first) ++ named_updates mask O items.
+
+(* named paramstyle: one rendered "(...)" group per enumerate(batch), the counter is the index *)
+Definition named_groups (items : list ptuple) : Z := Z.of_nat (length items).
+Definition named_counters (embed : bool) (items : list ptuple) : list Z :=
+  if embed then zrange 0 (length items) else [].
